@@ -1,0 +1,33 @@
+//go:build verif
+
+// Contracts for package pass2, read by /verif/govc. Not part of a normal build.
+
+package pass2
+
+import (
+	ocode_client "github.com/HobbyOSs/gosk/internal/ocode_client"
+)
+
+func old[T any](x T) T { return x }
+
+func forall(lo, hi int, p func(k int) bool) bool {
+	for k := lo; k < hi; k++ {
+		if !p(k) {
+			return false
+		}
+	}
+	return true
+}
+
+var _ = ocode_client.SpecCtx
+
+//@ func (*Pass2).Eval
+//@ props C16 C03 C14
+//@ requires p != nil && p.Client != nil && ocode_client.SpecCtx(p.Client) != nil
+//@ requires ocode_client.SpecCtx(p.Client).BitMode == 16 || ocode_client.SpecCtx(p.Client).BitMode == 32
+//@ loop 0 invariant true
+//@ loop 1 invariant true
+//@ calls[symtab] (*template.Template).Execute : vcSame(arg2, any(p.SymTable))
+//@ ensures[origin] result0 == nil ==> ocode_client.SpecCtx(p.Client).DollarPosition == uint64(p.DollarPos)
+//@ ensures[symtab] result0 == nil ==> vcSame(ocode_client.SpecCtx(p.Client).SymTable, p.SymTable)
+//@ assigns CodeGenContext.DollarPosition, CodeGenContext.SymTable, CodeGenContext.MachineCode, CodeGenContext.VS, VariantStack, ocodeClient.Ocodes, []string
